@@ -124,7 +124,7 @@ func init() {
 				r.Inconcl = append(r.Inconcl, fmt.Sprintf("too little observed: %v", r.Counters))
 			}
 		},
-		Rule: "cases = connection path (main listener of net/rpc, gRPC, gRPC+mux incl. an intruder that takes the multiplexed listener's single session before the host; plugin-side and host-side brokered gRPC listeners found by listing the case's private socket directories, also with an address-translating runner) x intruder credential class (plaintext, TLS without client certificate, TLS with a fresh self-signed certificate of another name, TLS with a certificate of identical subject/SAN but another key, the latter also verifying against its own CA), fresh keys per case, each attempt speaking the real protocol (yamux+net/rpc Control.Ping, gRPC health check, PingPong) and each case carrying a positive control by the legitimate peer; plus impostor plugins that announce certificate A and serve certificate B or plaintext with the real protocol. Class = protocol|path|launch",
+		Rule:        "cases = connection path (main listener of net/rpc, gRPC, gRPC+mux incl. an intruder that takes the multiplexed listener's single session before the host; plugin-side and host-side brokered gRPC listeners found by listing the case's private socket directories, also with an address-translating runner) x intruder credential class (plaintext, TLS without client certificate, TLS with a fresh self-signed certificate of another name, TLS with a certificate of identical subject/SAN but another key, the latter also verifying against its own CA), fresh keys per case, each attempt speaking the real protocol (yamux+net/rpc Control.Ping, gRPC health check, PingPong) and each case carrying a positive control by the legitimate peer; plus impostor plugins that announce certificate A and serve certificate B or plaintext with the real protocol. Class = protocol|path|launch",
 		Assumptions: []string{"a case without a successful positive control is inconclusive, never 'held'", "samples credential classes; says nothing about TLS itself"},
 	})
 }
